@@ -24,7 +24,7 @@ WINDOWS = ["bartlett_hann", "blackman_harris", "blackman_nuttall", "bohman", "bl
 ALIASES = {"hann": "hanning", "hanning": "hann", "rectangular": "rectangle", "rectangle": "rectangular",
            "bartlett": "triangular", "triangular": "bartlett", "cosine": "sine", "sine": "cosine",
            "lanczos": "sinc", "sinc": "lanczos"}
-SAMPLINGS = [0.5, 1.0, 2.0, 1000.0, 44100.0]
+SAMPLINGS = [0.5, 1.0, 1.5, 2.0, 2.5, 3, 1000.0, 1024.0, 44100.0]
 SIDES = ["onesided", "twosided", "centerdc"]
 
 # ---------------------------------------------------------------------------
@@ -36,7 +36,7 @@ ALPHABET = [
     ("sides:onesided", 1), ("sides:twosided", 1), ("sides:centerdc", 1), ("sides:default", 1),
     ("sides:invalid", 0), ("sides:same", 1),
     ("data:newvals", 1), ("data:longer", 1), ("data:shorter", 1), ("data:flip", 1), ("data:same", 1),
-    ("data:list", 0), ("data:int", 0),
+    ("data:list", 0), ("data:int", 0), ("data:f32", 0),
     ("NFFT:None", 1), ("NFFT:nextpow2", 0), ("NFFT:eqN", 0), ("NFFT:even_gt", 1), ("NFFT:odd_gt", 1),
     ("NFFT:lt", 1), ("NFFT:invalid", 0), ("NFFT:same", 1), ("NFFT:parity", 0),
     ("sampling:diff", 1), ("sampling:same", 0),
@@ -112,6 +112,8 @@ def dec_data(d):
     a = dec_array(d)
     if d.get("c") == "list":
         return a.tolist()
+    if d.get("c") == "f32":
+        return a.astype(np.complex64 if np.iscomplexobj(a) else np.float32)
     return a
 
 
@@ -638,6 +640,8 @@ def concretize(aname, rng, run):
             arr = gen_signal(rng, N + rng.choice([0, 0, 1]), not cplx)
         elif vc == "list":
             return {"op": "set", "attr": "data", "value": enc_data(gen_signal(rng, N, cplx), "list")}
+        elif vc == "f32":
+            return {"op": "set", "attr": "data", "value": enc_data(gen_signal(rng, N, cplx), "f32")}
         elif vc == "int":
             arr = np.array([rng.randrange(-9, 10) for _ in range(N)], dtype=np.int64)
             if cplx:
@@ -656,9 +660,13 @@ def concretize(aname, rng, run):
         elif vc == "even_gt":
             v = N + rng.randrange(1, 40)
             v += v % 2
+            if rng.random() < 0.03:
+                v = rng.choice([256, 512, 1024, 4096])
         elif vc == "odd_gt":
             v = N + rng.randrange(1, 40)
             v += 1 - v % 2
+            if rng.random() < 0.03:
+                v = rng.choice([255, 513, 1025, 4097])
         elif vc == "lt":
             v = rng.randrange(1, max(2, N))
         elif vc == "parity":
